@@ -140,7 +140,14 @@ def run_case(route, shape, bpv, bs, d, idx):
                 mk_segy(sgy, src, range(1, shape[0] + 1), range(10, 10 + shape[1]), fmt=fmt, ext_text=(1 if 'ext' in route else 0))
                 with segyio.open(sgy) as f:
                     src = segyio.tools.cube(f).astype(np.float32)      # the source as segyio presents it (IBM -> float32)
-                write_segy_sgz(sgy, p, bpv=bpv, blockshape=bs, reduce_iops=('min' in route))
+                win = None
+                if 'win' in route and shape[0] >= 3:
+                    # an inline window that keeps every crossline (the case in which the reduced-I/O reader could be kept by mistake)
+                    i0 = 1 + (idx % max(1, shape[0] - 2))
+                    win = (i0, shape[0], 0, shape[1])
+                    src = src[i0:]
+                    inp['window'] = list(win)
+                write_segy_sgz(sgy, p, bpv=bpv, blockshape=bs, reduce_iops=('min' in route), window=win)
             elif route == 'cli':
                 mk_segy(sgy, src, range(1, shape[0] + 1), range(10, 10 + shape[1]))
                 from click.testing import CliRunner
@@ -177,7 +184,7 @@ def main():
     d = scratch_dir()
     try:
         idx = 0
-        routes_extra = ['segy', 'segy-min', 'segy-ibm', 'segy-ibm-min', 'cli']
+        routes_extra = ['segy', 'segy-min', 'segy-ibm', 'segy-ibm-min', 'cli', 'segy-min-win', 'segy-win']
         for ci, (bpv, bs) in enumerate(CONFIGS):
             if bs[2] == -1:
                 bsr = (bs[0], bs[1], int(32768 // (bs[0] * bs[1] * bpv)))
